@@ -173,6 +173,7 @@ type lval struct {
 	lean  string // Lean expression (sBool, sNat, sInt)
 	text  string // canonical Go text (always set)
 	tuple []lval // components of a multi-value call result
+	cst   constant.Value // set for compile-time constants (also of variables assigned a constant)
 }
 
 type latom struct {
@@ -369,7 +370,7 @@ func (t *ltrans) eval(e ast.Expr, env lenv) lval {
 				return lval{sort: sInt, width: w, lean: "(" + str + " : Int)", text: str}
 			}
 		}
-		return lval{sort: sOpaque, text: t.text(e, env)}
+		return lval{sort: sOpaque, text: t.text(e, env), cst: tv.Value}
 	}
 	switch x := e.(type) {
 	case *ast.ParenExpr:
@@ -463,6 +464,11 @@ func (t *ltrans) binary(x *ast.BinaryExpr, env lenv, ty types.Type) lval {
 				return lval{sort: sBool, lean: "(" + ls + " " + op + " " + rs + ")", text: text}
 			}
 			return lval{sort: sBool, lean: "(decide (" + ls + " " + op + " " + rs + "))", text: text}
+		}
+		if l.cst != nil && r.cst != nil && l.cst.Kind() == constant.String && r.cst.Kind() == constant.String && (x.Op == token.EQL || x.Op == token.NEQ) {
+			// both sides are known strings (a variable that was assigned a constant counts)
+			v := constant.Compare(l.cst, x.Op, r.cst)
+			return lval{sort: sBool, lean: fmt.Sprint(v), text: text}
 		}
 		if l.sort == sBool && r.sort == sBool && (x.Op == token.EQL || x.Op == token.NEQ) {
 			op := "=="
@@ -640,7 +646,13 @@ func (t *ltrans) exec(stmts []ast.Stmt, env lenv, effects []string, depth int) s
 	case *ast.ReturnStmt:
 		var rets []string
 		for i, r := range x.Results {
-			rets = append(rets, t.retVals(fmt.Sprint(i), r, env, 0)...)
+			prefix := fmt.Sprint(i)
+			if len(x.Results) == 1 {
+				if _, isTuple := t.p.info.TypeOf(r).(*types.Tuple); isTuple {
+					prefix = "" // `return f()`: the components are the return values
+				}
+			}
+			rets = append(rets, t.retVals(prefix, r, env, 0)...)
 		}
 		return t.leaf(effects, rets)
 	case *ast.ExprStmt:
